@@ -362,6 +362,23 @@ class Parameterizer:
             return Parameter(idx=len(self.values))
 
 
+def _is_boolean_expression(term: Any) -> bool:
+    """comparison, AND / OR / XOR, IN, BETWEEN or IS NULL: binds more loosely than any operator it can be an operand of"""
+    if isinstance(term, (ContainsCriterion, RangeCriterion, NullCriterion)):
+        return True
+    return isinstance(term, BasicCriterion) and isinstance(
+        term.comparator, (Equality, Matching, Boolean)
+    )
+
+
+def _operand_sql(term: Any, ctx: SqlContext) -> str:
+    """SQL of a term that is an operand of an arithmetic operator, a comparison, IS NULL, IN, BETWEEN, a bitwise AND or a
+    unary minus: a boolean expression is bracketed, anything else is written as it is."""
+    if _is_boolean_expression(term):
+        return "({})".format(term.get_sql(ctx.copy(subcriterion=False)))
+    return term.get_sql(ctx)
+
+
 class Negative(Term):
     def __init__(self, term: Term) -> None:
         super().__init__()
@@ -385,7 +402,7 @@ class Negative(Term):
         self.term = self.term.replace_table(current_table, new_table)
 
     def get_sql(self, ctx: SqlContext) -> str:
-        term_sql = self.term.get_sql(ctx.copy(with_alias=False))
+        term_sql = _operand_sql(self.term, ctx.copy(with_alias=False))
         if isinstance(self.term, ArithmeticExpression) or term_sql.startswith("-"):
             # -(a+b) must not become -a+b, and -(-a) must not become the comment opener --a
             term_sql = "({})".format(term_sql)
@@ -937,8 +954,8 @@ class BasicCriterion(Criterion):
         operand_ctx = ctx.copy(with_alias=False)
         sql = "{left}{comparator}{right}".format(
             comparator=self.comparator.value,
-            left=self.left.get_sql(operand_ctx),
-            right=self.right.get_sql(operand_ctx),
+            left=_operand_sql(self.left, operand_ctx),
+            right=_operand_sql(self.right, operand_ctx),
         )
         if ctx.with_alias:
             return format_alias_sql(sql, self.alias, ctx)
@@ -995,7 +1012,7 @@ class ContainsCriterion(Criterion):
     def get_sql(self, ctx: SqlContext) -> str:
         container_ctx = ctx.copy(subquery=True, with_alias=False)
         sql = "{term} {not_}IN {container}".format(
-            term=self.term.get_sql(ctx.copy(with_alias=False)),
+            term=_operand_sql(self.term, ctx.copy(with_alias=False)),
             container=self.container.get_sql(container_ctx),
             not_="NOT " if self._is_negated else "",
         )
@@ -1053,9 +1070,9 @@ class BetweenCriterion(RangeCriterion):
         # FIXME escape
         operand_ctx = ctx.copy(with_alias=False)
         sql = "{term} BETWEEN {start} AND {end}".format(
-            term=self.term.get_sql(operand_ctx),
-            start=self.start.get_sql(operand_ctx),
-            end=self.end.get_sql(operand_ctx),
+            term=_operand_sql(self.term, operand_ctx),
+            start=_operand_sql(self.start, operand_ctx),
+            end=_operand_sql(self.end, operand_ctx),
         )
         if ctx.with_alias:
             return format_alias_sql(sql, self.alias, ctx)
@@ -1119,7 +1136,7 @@ class BitwiseAndCriterion(Criterion):
 
     def get_sql(self, ctx: SqlContext) -> str:
         sql = "({term} & {value})".format(
-            term=self.term.get_sql(ctx.copy(with_alias=False)),
+            term=_operand_sql(self.term, ctx.copy(with_alias=False)),
             value=self.value,
         )
         if ctx.with_alias:
@@ -1158,7 +1175,7 @@ class NullCriterion(Criterion):
 
     def get_sql(self, ctx: SqlContext) -> str:
         sql = "{term} IS NULL".format(
-            term=self.term.get_sql(ctx.copy(with_alias=False)),
+            term=_operand_sql(self.term, ctx.copy(with_alias=False)),
         )
         if ctx.with_alias:
             return format_alias_sql(sql, self.alias, ctx)
@@ -1292,8 +1309,8 @@ class ArithmeticExpression(Term):
 
         # render left before right: a parameterizer collects values in rendering order
         operand_ctx = ctx.copy(with_alias=False)
-        left_sql = self.left.get_sql(operand_ctx)
-        right_sql = self.right.get_sql(operand_ctx)
+        left_sql = _operand_sql(self.left, operand_ctx)
+        right_sql = _operand_sql(self.right, operand_ctx)
         right_parens = self.right_needs_parens(self.operator, right_op)
         if self.operator == Arithmetic.sub and right_sql.startswith("-"):
             # a-(-1) must not become a--1, which opens an SQL comment
